@@ -37,8 +37,8 @@ ASSUMPTIONS = [
     "reference; beyond that bound nothing is claimed",
 ]
 BOUNDS = {
-    "quick": "20 cover prefixes x 12 suffixes x 1 symbolic character (all of the alphabet at once)",
-    "thorough": "20 cover prefixes x 12 suffixes x 2 symbolic characters, plus every text of <= 4 symbolic characters from the initial state",
+    "quick": "20 cover prefixes x 13 suffixes x 1 symbolic character (all of the alphabet at once)",
+    "thorough": "20 cover prefixes x 13 suffixes x 2 symbolic characters, plus every text of <= 4 symbolic characters from the initial state",
 }
 EXPLANATION = (
     "For every (access text of a reference lexical state, characterising suffix) pair the text prefix + m symbolic characters + "
@@ -82,6 +82,9 @@ SUFFIX = [
     ("slash", "/ g\nh\n"),
     ("hash", "\n#y\nz\n"),
     ("splice", BS + "\nq\n"),
+    # a comment terminator split by a backslash-newline: the '*' that the symbolic character may supply ends a line and the
+    # '/' starts the next one (on an interior line of the comment with the access text block-line2: seed C05e)
+    ("splice-slash", BS + "\n/ g\nh\n"),
     ("star-slash-code", "*/x" + BS + "\ny\n#z\n"),
     # a '/' at the start of the next line must not pair with a '*' that ended the previous line of a block comment
     ("slash-nl-close", "/\nq\n*/\nh\n"),
